@@ -568,9 +568,9 @@ def load(path, crate, cache_dir=None):
                 pass
     fns = parse_text(text, crate)
     if cache_dir:
-        with open(cp + '.tmp', 'wb') as fh:
+        with open(cp + f'.tmp{os.getpid()}', 'wb') as fh:
             pickle.dump(fns, fh)
-        os.replace(cp + '.tmp', cp)
+        os.replace(cp + f'.tmp{os.getpid()}', cp)
     return fns
 
 if __name__ == '__main__':
